@@ -23,6 +23,9 @@ pub struct Ctl {
     /// (task, call kind, detail) in execution order
     pub trace: Mutex<Vec<(usize, String, String)>>,
     pub enabled: AtomicBool,
+    /// model database latency: a read takes its value when it is issued and is delivered at a second
+    /// scheduling point (`*.done`), so other calls can land in between
+    pub split_reads: AtomicBool,
 }
 
 #[derive(Clone, Default)]
@@ -88,11 +91,18 @@ impl Database for SchedDb {
                 last.2 = azks_epoch(&r);
             }
         }
+        if self.ctl.split_reads.load(Ordering::SeqCst) {
+            self.gate("get.done", String::new()).await;
+        }
         r
     }
     async fn batch_get<St: Storable>(&self, ids: &[St::StorageKey]) -> Result<Vec<DbRecord>, StorageError> {
         self.gate("batch_get", String::new()).await;
-        self.inner.batch_get::<St>(ids).await
+        let r = self.inner.batch_get::<St>(ids).await;
+        if self.ctl.split_reads.load(Ordering::SeqCst) {
+            self.gate("batch_get.done", String::new()).await;
+        }
+        r
     }
     async fn get_user_data(&self, username: &AkdLabel) -> Result<KeyData, StorageError> {
         self.gate("get_user_data", String::new()).await;
